@@ -54,6 +54,11 @@ Definition bag_of_list (l : list Z) : bag := fold_left (fun a x => bag_incr x 1 
 
 (* ------------------------------------------------------------------ mappings (SRFI 146 mapping / hashmap) *)
 Definition amap := list (Z * Z).         (* (key, value), keys strictly increasing *)
+(** mapping-range< / <= / > / >= (ordered mappings only): the associations whose key is below / above x *)
+Definition map_range_lt (x : Z) (m : amap) : amap := filter (fun p => fst p <? x) m.
+Definition map_range_le (x : Z) (m : amap) : amap := filter (fun p => fst p <=? x) m.
+Definition map_range_gt (x : Z) (m : amap) : amap := filter (fun p => fst p >? x) m.
+Definition map_range_ge (x : Z) (m : amap) : amap := filter (fun p => fst p >=? x) m.
 Fixpoint map_ref (k : Z) (m : amap) : option Z :=
   match m with [] => None | (k', v) :: m' => if k =? k' then Some v else map_ref k m' end.
 Fixpoint map_set (k v : Z) (m : amap) : amap :=
